@@ -59,3 +59,55 @@ Definition longitude_increasing (gL gB gR : val R) : Prop :=
                            ang (red360 (useries TB jde * (180 / PI)));
                            VFloat (useries TR jde)])
     /\ (forall j1 j2, jde_lo <= j1 -> j1 < j2 -> j2 <= jde_hi -> ulon TL j1 < ulon TL j2).
+
+(* ---- amplitude envelopes of latitude and radius vector (weaker than the property's physical
+        envelope: plain sums of amplitudes), |t| <= 4 millennia ---- *)
+Lemma tmill_range jde : jde_lo <= jde <= jde_hi -> Rabs (tmill jde) <= IZR 4.
+Proof.
+  unfold jde_lo, jde_hi, tmill. intros [H1 H2]. apply Rabs_le. simpl IZR. split.
+  - apply Rmult_le_reg_r with 365250; [lra|]. unfold Rdiv. rewrite Rmult_assoc, Rinv_l by lra. lra.
+  - apply Rmult_le_reg_r with 365250; [lra|]. unfold Rdiv. rewrite Rmult_assoc, Rinv_l by lra. lra.
+Qed.
+
+(* nB, nR: integers computed from the tables; bounds nB / 1e23 rad and nR / 1e23 AU *)
+Definition series_envelope (gL gB gR : val R) (nB nR : Z) : Prop :=
+  exists TL TB TR : list (list dterm3),
+    (forall jde, f_vsop_pos Rops (ep jde) gL gB gR
+                 = VTuple [ang (pos360 (red360 (ulon TL jde)));
+                           ang (red360 (useries TB jde * (180 / PI)));
+                           VFloat (useries TR jde)])
+    /\ (forall jde, jde_lo <= jde <= jde_hi ->
+          Rabs (useries TB jde) <= IZR nB / IZR (10 ^ 23)
+          /\ Rabs (useries TR jde - const_term TR / 100000000) <= IZR nR / IZR (10 ^ 23)).
+
+Theorem planet_envelope (gL gB gR : val R) (TL TB TR : list (list dterm3)) :
+  gL = enc_table (Rtable TL) -> gB = enc_table (Rtable TB) -> gR = enc_table (Rtable TR) ->
+  TL <> [] -> TB <> [] -> TR <> [] ->
+  env_check 15 4 TB = true -> envc_check 15 4 TR = true ->
+  series_envelope gL gB gR (zabound 15 4 0 TB) (zabound 15 4 0 (tail_table TR)).
+Proof.
+  intros EL EB ER HL HB HR CB CR. exists TL, TB, TR. split.
+  - intro jde. subst gL gB gR.
+    apply (vsop_pos_direct_sum jde (Rtable TL) (Rtable TB) (Rtable TR)); apply Rtable_nonempty; assumption.
+  - intros jde Hj. pose proof (tmill_range jde Hj) as Ht.
+    pose proof (env_check_bound 15 4 TB CB (tmill jde) Ht) as H1.
+    pose proof (envc_check_bound 15 4 TR CR (tmill jde) Ht) as H2.
+    assert (E : IZR (10 ^ 23) = IZR (10 ^ 15) * 100000000).
+    { rewrite <- mult_IZR. f_equal. }
+    assert (P15 : 0 < IZR (10 ^ 15)) by (apply pow10_pos; lia).
+    unfold useries. rewrite E. split.
+    + unfold Rdiv at 1. rewrite Rabs_mult, (Rabs_right (/ 100000000)) by (apply Rle_ge; lra).
+      apply Rmult_le_reg_r with 100000000; [lra|].
+      rewrite Rmult_assoc, Rinv_l, Rmult_1_r by lra.
+      replace (IZR (zabound 15 4 0 TB) / (IZR (10 ^ 15) * 100000000) * 100000000)
+        with (IZR (zabound 15 4 0 TB) / IZR (10 ^ 15)) by (field; lra).
+      exact H1.
+    + replace (direct_sum (tmill jde) (Rtable TR) / 100000000 - const_term TR / 100000000)
+        with ((direct_sum (tmill jde) (Rtable TR) - const_term TR) * / 100000000) by (field; lra).
+      rewrite Rabs_mult, (Rabs_right (/ 100000000)) by (apply Rle_ge; lra).
+      apply Rmult_le_reg_r with 100000000; [lra|].
+      rewrite Rmult_assoc, Rinv_l, Rmult_1_r by lra.
+      replace (IZR (zabound 15 4 0 (tail_table TR)) / (IZR (10 ^ 15) * 100000000) * 100000000)
+        with (IZR (zabound 15 4 0 (tail_table TR)) / IZR (10 ^ 15)) by (field; lra).
+      exact H2.
+Qed.
